@@ -27,9 +27,10 @@ TraceInit == /\ sc = [shape |-> "bare", ha |-> "never", hb |-> "never", up |-> "
 TScenario ==
   /\ l <= Len(TraceLog) /\ Rec.ev = "Scenario"
   /\ LET s == [shape |-> Rec.shape, ha |-> Rec.han, hb |-> Rec.hbn, up |-> Rec.upn, rules |-> Rec.rules, exempt |-> Rec.exempt, wrap |-> Rec.wrap]
-         all == {[class |-> Rec.problems[i].class, sev |-> Rec.problems[i].severity] : i \in 1..Len(Rec.problems)}
-         onsel == {[class |-> Rec.problems[i].class, sev |-> Rec.problems[i].severity] :
-                     i \in {j \in 1..Len(Rec.problems) : Rec.problems[j].onsel}}
+         Obs(i) == [class |-> Rec.problems[i].class, sev |-> Rec.problems[i].severity, at |-> Rec.problems[i].at,
+                    about |-> Rec.problems[i].about, ago |-> Rec.problems[i].ago]
+         all == {Obs(i) : i \in 1..Len(Rec.problems)}
+         onsel == {Obs(i) : i \in {j \in 1..Len(Rec.problems) : Rec.problems[j].onsel}}
          returnsNow == Rec.truth_instant > 0
          noSample == Rec.truth_range_points = 0
          wellformed == s \in Scenario /\ ToSet(Rec.ha) = Hist(s.ha) /\ ToSet(Rec.hb) = Hist(s.hb) /\ ToSet(Rec.up) = UpHist(s.up)
